@@ -253,7 +253,7 @@ func (c bookingCase) run(m *lib.Monitor) {
 			m.Eval("empty-query", false, nil)
 			return
 		}
-		m.Violate("C08/booking/PullBookings/fence-lost", "a newly created intersecting booking was not delivered within 3s", c, "ADD", showChanges(evs))
+		m.Violate("C08/booking/PullBookings/fence-lost", "a newly created intersecting booking was not delivered within 5s", c, "ADD", showChanges(evs))
 		return
 	}
 	if !foldAndCheck(evs, "seed") {
@@ -266,7 +266,7 @@ func (c bookingCase) run(m *lib.Monitor) {
 		}
 		evs, ok := drain()
 		if !ok {
-			m.Violate("C08/booking/PullBookings/fence-lost", "a newly created intersecting booking was not delivered within 3s", c, "ADD", showChanges(evs))
+			m.Violate("C08/booking/PullBookings/fence-lost", "a newly created intersecting booking was not delivered within 5s", c, "ADD", showChanges(evs))
 			return
 		}
 		if !foldAndCheck(evs, op) {
@@ -298,7 +298,7 @@ func runBooking(f lib.Flags, res *lib.Result) {
 	mon := res.Monitor("booking-period-predicate", "real bookingpb.ModelServer through its wrapper client: random create/update histories of 2-3 bookings with half-open, optionally unbounded booked periods over seconds 0..8, PullBookings/ListBookings(booking_intersects=q): after each write (fenced by creating a fresh intersecting booking) fold(stream) = ListBookings = bookings intersecting q by an integer-interval oracle; every event well formed at the view; distinct = (query, history)")
 	_ = resource.WithInclude
 	r := lib.NewRand(f.Seed + 7)
-	n := f.N(150, 3000)
+	n := f.N(400, 4000)
 	ids := []string{"a", "b", "c"}
 	for i := 0; i < n; i++ {
 		c := bookingCase{Kind: "booking", Query: genPeriod(r), NBefore: r.Intn(3)}
